@@ -360,6 +360,90 @@ impl Check for Invalid {
     }
 }
 
+// ------------------------------------------------------------------ knots as data: every knot evaluates, to the ulp
+#[derive(Serialize, Deserialize, Clone, Debug)]
+pub struct KnotPt {
+    pub clamped: bool,
+    /// knots in tenths (a decimal lattice: sums and differences of such knots round)
+    pub tenths: Vec<i32>,
+}
+pub struct KnotLattice;
+impl Check for KnotLattice {
+    type P = KnotPt;
+    fn name(&self) -> &'static str {
+        "knot-lattice"
+    }
+    fn rule(&self) -> String {
+        "free and clamped splines through EVERY pair of knots a < b and every triple on a coarser grid from the decimal lattice {-2.0, -1.9, ..., 2.0} (knot differences and sums round in binary): evaluation at each knot exactly is Ok and returns the datum, one ulp inside either end is Ok, one ulp outside either end is Err; signature = (kind, knot count, whether a + (b - a) == b for the last interval)".into()
+    }
+    fn points(&self, t: Tier) -> Vec<KnotPt> {
+        let mut v = vec![];
+        let step = t.pick(3, 2);
+        for clamped in [false, true] {
+            for a in -20..=20 {
+                for b in a + 1..=20 {
+                    v.push(KnotPt { clamped, tenths: vec![a, b] });
+                }
+            }
+            let grid: Vec<i32> = (-20..=20).step_by(step).collect();
+            for (i, &a) in grid.iter().enumerate() {
+                for (j, &m) in grid.iter().enumerate().skip(i + 1) {
+                    for &b in grid.iter().skip(j + 1) {
+                        v.push(KnotPt { clamped, tenths: vec![a, m, b] });
+                    }
+                }
+            }
+        }
+        v
+    }
+    fn run(&self, p: &KnotPt) -> Outcome {
+        let mut o = Outcome::new();
+        let xs: Vec<f64> = p.tenths.iter().map(|k| *k as f64 / 10.0).collect();
+        let ys: Vec<f64> = xs.iter().map(|x| (1.3 * x).sin() + 0.5 * x).collect();
+        let n = xs.len();
+        let subj = if p.clamped { "interp::spline_clamped" } else { "interp::spline_free" };
+        let ctx = |w: &str| format!("{:?} knots {:?}: {}", p, xs, w);
+        let lib = match vcore::guard(|| if p.clamped { spline_clamped::<f64>(&xs, &ys, (0.4, -0.7), 1e-12) } else { spline_free::<f64>(&xs, &ys, 1e-12) }) {
+            Err(m) => {
+                o.viol(subj, "never-panics", ctx(&m));
+                return o;
+            }
+            Ok(Err(e)) => {
+                o.viol(subj, "ok-for-increasing-knots", ctx(&format!("Err({})", e)));
+                return o;
+            }
+            Ok(Ok(l)) => l,
+        };
+        for i in 0..n {
+            match (lib.evaluate(xs[i]), lib.evaluate_derivative(xs[i])) {
+                (Ok(v), Ok((v2, _))) => {
+                    let tolv = 256.0 * EPS * (1.0 + ys.iter().fold(0.0f64, |m, y| m.max(y.abs()))) * (1.0 + 8.0 / (xs[n - 1] - xs[0]).min(1.0));
+                    if !((v - ys[i]).abs() <= tolv && (v2 - ys[i]).abs() <= tolv) {
+                        o.viol(subj, "passes-through-every-data-point", ctx(&format!("knot {} = {:?}: value {} / {} vs datum {} (tolerance {:e})", i, xs[i], v, v2, ys[i], tolv)));
+                        break;
+                    }
+                }
+                (a, b) => {
+                    o.viol(subj, "passes-through-every-data-point", ctx(&format!("knot {} = {:?}: evaluate {:?}, evaluate_derivative {:?}", i, xs[i], a, b.map(|x| x.0))));
+                    break;
+                }
+            }
+        }
+        for (x, inside) in [(vcore::num::next_up(xs[0]), true), (vcore::num::next_down(xs[n - 1]), true), (vcore::num::next_down(xs[0]), false), (vcore::num::next_up(xs[n - 1]), false)] {
+            let (ev, ed) = (lib.evaluate(x).is_ok(), lib.evaluate_derivative(x).is_ok());
+            if inside && !(ev && ed) {
+                o.viol(subj, "evaluates-inside-the-knot-range", ctx(&format!("x = {:?} (one ulp inside): evaluate Ok = {}, evaluate_derivative Ok = {}", x, ev, ed)));
+            }
+            if !inside && (ev || ed) {
+                o.viol(subj, "outside-the-knot-range-gives-err", ctx(&format!("x = {:?} (one ulp outside): evaluate Ok = {}, evaluate_derivative Ok = {}", x, ev, ed)));
+            }
+        }
+        let (a, b) = (xs[n - 2], xs[n - 1]);
+        o.sig = format!("{}|n{}|a+(b-a){}b", if p.clamped { "clamped" } else { "free" }, n, if a + (b - a) == b { "==" } else { "!=" });
+        o
+    }
+}
+
 pub fn main(mut r: Report) -> ! {
     r.assumptions = vec![
         "reference spline: dense Gaussian elimination of the free / clamped spline equations in local form; tolerance 64 eps x (evaluation condition of the piece expanded in powers of x) x (1 + hmax/hmin)".into(),
@@ -367,5 +451,6 @@ pub fn main(mut r: Report) -> ! {
     ];
     r.run(&Splines);
     r.run(&Invalid);
+    r.run(&KnotLattice);
     r.finish()
 }
